@@ -1,9 +1,7 @@
-\* quick exhaustive part: all programs of <= 3 commands over menu "q", every resolution of
-\* the latitude points enabled, keyword not permitted (dict, plain maildir).
-\* The check generates this text at run time (harness/checks/c10.py cfg_text).
+\* as RefMailbox_q.cfg, keyword permitted (maildir with a dovecot-keywords file)
 SPECIFICATION Spec
 CONSTANTS
-  KwPermitted = FALSE
+  KwPermitted = TRUE
   Lat = {"lenient", "strict"}
   AppendKw = {"drop", "keep"}
   Inits = {"std"}
